@@ -1,11 +1,11 @@
 SPECIFICATION Spec
 CONSTANTS
-  MaxLines = 4
+  MaxLines = 11
   Modes = {"independent", "cumulative"}
-  MaxNext = 5
-  MaxSep = 2
-  MinMarkers = 0
-  LineKinds = {"c", "m", "f"}
+  MaxNext = 12
+  MaxSep = 1
+  MinMarkers = 9
+  LineKinds = {"m", "c"}
   Flags = {}
 INVARIANT Lossless
 INVARIANT KthChunk
